@@ -91,6 +91,8 @@ pub enum Cmd {
     NotifSetPolicy(u8),
     /// answer a pending validation for `peer` now
     NotifAnswer { peer: PeerId, accept: bool },
+    /// answer a validation for `peer` after this long (whatever is pending then)
+    NotifAnswerLater { peer: PeerId, accept: bool, after: Duration },
     /// stop polling the notification handle for this long (reader stall)
     NotifStall(Duration),
     /// slow consumer: pause this long after every received notification (zero switches it off)
@@ -196,6 +198,8 @@ pub enum ProbeCmd {
     Open(PeerId),
     DropHeld,
     ForceClose(PeerId),
+    /// close the write half of every held substream (the substreams stay alive and are still readable)
+    ShutdownHeld,
     /// return from `run`: the protocol shuts down
     Exit,
     /// open a substream and, once it is open, write these chunks raw (no framing added), `gap_ms` apart, keep it for
@@ -286,6 +290,11 @@ impl litep2p::protocol::UserProtocol for Probe {
                             push(&self.log, self.node, ObsKind::ProbeOpenCalled { probe: self.probe, peer, id: r.as_ref().ok().map(|i| i.verif_raw()), err: r.as_ref().err().map(|e| format!("{e:?}")) });
                         }
                         Some(ProbeCmd::DropHeld) => held.clear(),
+                        Some(ProbeCmd::ShutdownHeld) => {
+                            for s in held.iter_mut() {
+                                let _ = tokio::time::timeout(Duration::from_millis(200), tokio::io::AsyncWriteExt::shutdown(s)).await;
+                            }
+                        }
                         Some(ProbeCmd::RawOpen { peer, chunks, gap_ms, hold_ms }) => {
                             let r = service.open_substream(peer);
                             if let Ok(id) = &r {
@@ -537,7 +546,7 @@ async fn node_main(
     let mut stalled_requests: Vec<RequestId> = Vec::new();
     let mut notif_stall_until: Option<Instant> = None;
     let mut notif_throttle = Duration::ZERO;
-    let mut delayed_validation: Vec<(Instant, PeerId)> = Vec::new();
+    let mut delayed_validation: Vec<(Instant, PeerId, bool)> = Vec::new();
     loop {
         let next_due = delayed.iter().map(|d| d.0).chain(delayed_validation.iter().map(|d| d.0)).chain(notif_stall_until.iter().cloned()).min();
         let sleep = async {
@@ -661,6 +670,7 @@ async fn node_main(
                             push(&log, index, ObsKind::NotifApi { what: format!("answer {peer} {accept}"), ok: true });
                         }
                     }
+                    Cmd::NotifAnswerLater { peer, accept, after } => delayed_validation.push((Instant::now() + after, peer, accept)),
                     Cmd::NotifStall(d) => notif_stall_until = Some(Instant::now() + d),
                     Cmd::NotifThrottle(d) => notif_throttle = d,
                     Cmd::Ping(tx) => { let _ = tx.send(()); }
@@ -718,7 +728,7 @@ async fn node_main(
                                 h.send_validation_result(peer, ValidationResult::Accept);
                                 notif_stall_until = Some(Instant::now() + Duration::from_millis(300));
                             }
-                            _ => delayed_validation.push((Instant::now() + Duration::from_millis(100), peer)),
+                            _ => delayed_validation.push((Instant::now() + Duration::from_millis(100), peer, true)),
                         }
                     }
                     Some(NotificationEvent::NotificationStreamOpened { peer, direction, .. }) => push(&log, index, ObsKind::NotifOpened { peer, inbound: matches!(direction, litep2p::protocol::notification::Direction::Inbound) }),
@@ -760,8 +770,11 @@ async fn node_main(
                 let mut i = 0;
                 while i < delayed_validation.len() {
                     if delayed_validation[i].0 <= now {
-                        let (_, p) = delayed_validation.remove(i);
-                        if let Some(h) = notif.as_mut() { h.send_validation_result(p, ValidationResult::Accept); }
+                        let (_, p, accept) = delayed_validation.remove(i);
+                        if let Some(h) = notif.as_mut() {
+                            h.send_validation_result(p, if accept { ValidationResult::Accept } else { ValidationResult::Reject });
+                            push(&log, index, ObsKind::NotifApi { what: format!("answer {p} {accept}"), ok: true });
+                        }
                     } else { i += 1; }
                 }
                 if let Some(u) = notif_stall_until { if u <= now { notif_stall_until = None; } }
